@@ -404,6 +404,6 @@ func runC19(r *report.Run) {
 	r.Set("bounds", map[string]interface{}{"history_depth": depth, "alphabet": len(asmAlphabet()) + 2, "constructor_variants": len(variants), "thorough_second_pass": "all 10 constructor variants at depth 4", "capacities": "every capacity from 0 to program size + 1, each as a whole array (len == cap), as a window of a larger canary-filled array (len < cap) and with the emitter under test being a Clone over the target, plus the nil-target (dry-run) emitter"})
 	r.Set("rule", "every call sequence up to the depth x every buffer capacity from 0 to the program's size + 1 and the nil-target emitter: each call runs on a fresh real Emitter and on a twin real Emitter with ample room that receives exactly the accepted calls (the twin tells how many bytes a call needs; nothing is predicted from a model), the target buffer given once as a whole array and once as a window of a larger array whose bytes outside the window must stay untouched; a call that does not fit must panic and leave Bytes/Len/PC/Flags/labels unchanged, the history continues after a refusal, a call that fits must leave the emitter exactly like the twin, Finalize after the history must agree with the twin's, and an Append of a clone (own buffer) into a parent that is 0-2 bytes short must be refused leaving the parent as it was; the nil-target emitter must report the same PC, labels and flags after every call, also when the tail of the history (every split) goes through Clone(nil) and Append; non-trivial = capacity below the program size or nil target (at least one call differs from the roomy run)")
 	r.Sample(asmHistory{Variant: variants[0], Ops: []string{"LDA_abs($1234)", "JSL($123456)", "NOP"}, Capacity: 5})
-	r.Sample(asmHistory{Variant: variants[1], Ops: []string{"SEP(#$20)", "LDA_imm8_b($7F)", "EmitBytes(17)"}, Capacity: -1})
+	r.Sample(asmHistory{Variant: all[2], Ops: []string{"SEP(#$20)", "LDA_imm8_b($7F)", "EmitBytes(17)"}, Capacity: -1})
 	r.Assume("listing lines are not part of the property's list and are not compared here")
 }
